@@ -1,1 +1,4 @@
-
+//! Cache monitors. `seq` = sequential differential engines (policy_seq, cache_seq);
+//! `conc` = concurrent history engines (cache_hist, loader).
+pub mod conc;
+pub mod seq;
